@@ -4,6 +4,9 @@ import VlsModel.Gen.FnPersistModel
 import VlsModel.Gen.FnApprover
 import VlsModel.Gen.FnApproveTrait
 import VlsModel.Gen.FnNodeAdd
+import VlsModel.Gen.FnNodeVelocity
+import VlsModel.Gen.FnApproverMemo
+import VlsModel.Gen.FnNodeStateNew
 import VlsModel.Lemmas.FnGen
 /-
 C12 — the hand-written model `Model/Velocity.lean` proved equal to the function bodies that
@@ -639,5 +642,220 @@ example : (Node.add_keysend (Clock := Nat) (PaymentHash := Nat) (PublicKey := Un
     = .ok (⟨(), 10, ⟨[(7, ⟨[7], 100, (), 10, 60, false, .Keysend⟩)], [(7, RoutedPayment.new)], ⟨0, 300, [1000, 0], 1000⟩⟩⟩, true) := rfl
 
 end NodeAdd
+
+/-! ## Round 10 (b4): the plumbing of the node's two velocity controls (area `NodeVelocity`, `fn_targets/NodeVelocity.b4.json`)
+
+`Node::new_full` (every construction of a `Node`: fresh and restored), `Node::update_velocity_controls`,
+`NodeState::with_log_prefix`, `Node::make_velocity_control` / `make_fee_velocity_control`.  `new_full` was the gap of the
+restart clause ("`Node::new_full` itself is not translated; its two `update_spec` calls are extracted syntactically"): with the
+declared normalisations (`Mutex::new(x)` = `x`, the log prefix as an external string, the block under the non-default feature
+`timeless_workaround` dropped) its whole body is translated.  Stated on the generated definitions: **the node that comes out of
+a (re)start has, as payment control, `update_spec` of the control it was handed (the persisted one: `C11_fn_kvv_get_nodes`)
+under the policy's `global_velocity_control()`, and as fee control `update_spec` of the handed fee control under
+`fee_velocity_control()` — each in its own position — and everything else of the state as handed**; in model terms
+`VC.restart` (`C12_restart`, `C12_restart_any_spec`).  `update_spec` / `spec_matches` / `spec_to_triple` / `new` are translated
+once more inside this area (`C12_fn_nv_*`: the proofs of the velocity.rs ties over this copy). -/
+section NodeVelocity
+open VlsModel.Gen
+open VlsModel.Gen.FnNodeVelocity (Node NodeState NodeServices NodeConfig)
+
+def toVCv (g : FnNodeVelocity.VelocityControl) : VC :=
+  { start := g.start_sec, bi := g.bucket_interval, buckets := g.buckets, limit := g.limit }
+
+def toITypeV : FnNodeVelocity.VelocityControlIntervalType → IntervalType
+  | .Hourly => .hourly | .Daily => .daily | .Unlimited => .unlimited
+
+def toSpecV (s : FnNodeVelocity.VelocityControlSpec) : Spec := { limit := s.limit_msat, itype := toITypeV s.interval_type }
+
+theorem C12_fn_nv_spec_to_triple (s : FnNodeVelocity.VelocityControlSpec) :
+    FnNodeVelocity.VelocityControl.spec_to_triple s = (toSpecV s).triple := by
+  cases s with | mk l it => cases it <;> rfl
+
+theorem C12_fn_nv_spec_matches (g : FnNodeVelocity.VelocityControl) (s : FnNodeVelocity.VelocityControlSpec) :
+    g.spec_matches s = (toVCv g).specMatches (toSpecV s) := by
+  simp only [FnNodeVelocity.VelocityControl.spec_matches, VC.specMatches, C12_fn_nv_spec_to_triple]
+  rfl
+
+theorem C12_fn_nv_update_spec (g : FnNodeVelocity.VelocityControl) (s : FnNodeVelocity.VelocityControlSpec) :
+    toVCv (g.update_spec s) = (toVCv g).updateSpec (toSpecV s) := by
+  simp only [FnNodeVelocity.VelocityControl.update_spec, VC.updateSpec, C12_fn_nv_spec_matches, C12_fn_nv_spec_to_triple]
+  cases h : (toVCv g).specMatches (toSpecV s) <;> simp [toVCv, VC.ofSpec, VC.newWithIntervals, Rs.vecResize]
+
+theorem C12_fn_nv_new (s : FnNodeVelocity.VelocityControlSpec) :
+    (FnNodeVelocity.VelocityControl.new s).map toVCv = .ok (VC.ofSpec (toSpecV s)) := by
+  cases s with
+  | mk l it =>
+    cases it <;>
+      simp [FnNodeVelocity.VelocityControl.new, FnNodeVelocity.VelocityControl.spec_to_triple,
+        FnNodeVelocity.VelocityControl.new_with_intervals, Rs.assert,
+        toVCv, toSpecV, toITypeV, VC.ofSpec, Spec.triple, VC.newWithIntervals, Rs.vecResize, Except.map] <;>
+      first | exact ⟨rfl, rfl⟩ | exact ⟨rfl, rfl, rfl⟩
+
+variable {PaymentHash ScriptBuf Xpub PublicKey Secp256k1 Network MyKeysManager ChannelId ChannelSlot ValidatorFactory Persist
+  Clock ChainTracker Policy : Type}
+
+/-- `with_log_prefix`: the two controls and the prefix are the given ones, `last_summary` is emptied, all else is kept -/
+theorem C12_fn_with_log_prefix (emptyStr : String) (st : NodeState PaymentHash ScriptBuf Xpub PublicKey)
+    (vc fvc : FnNodeVelocity.VelocityControl) (pre : String) :
+    NodeState.with_log_prefix emptyStr st vc fvc pre
+      = { st with velocity_control := vc, fee_velocity_control := fvc, log_prefix := pre, last_summary := emptyStr } := rfl
+
+/-- **C12_fn_new_full**: see the section header.  `pol` is `validator_factory.policy(node_config.network)`. -/
+theorem C12_fn_new_full (secp : Secp256k1) (prefixOf : PublicKey → String) (policyOf : ValidatorFactory → Network → Policy)
+    (gspec fspec : Policy → FnNodeVelocity.VelocityControlSpec) (emptyStr : String)
+    (cfg : NodeConfig Network) (sv : NodeServices Persist Clock ValidatorFactory)
+    (st : NodeState PaymentHash ScriptBuf Xpub PublicKey) (km : MyKeysManager) (nid : PublicKey) (tr : ChainTracker) :
+    let n : Node PaymentHash ScriptBuf Xpub PublicKey Secp256k1 Network MyKeysManager ChannelId ChannelSlot ValidatorFactory
+        Persist Clock ChainTracker := Node.new_full secp prefixOf policyOf gspec fspec emptyStr cfg sv st km nid tr
+    let pol := policyOf sv.validator_factory cfg.network
+    n.state = { st with velocity_control := st.velocity_control.update_spec (gspec pol),
+                        fee_velocity_control := st.fee_velocity_control.update_spec (fspec pol),
+                        log_prefix := prefixOf nid, last_summary := emptyStr } ∧
+    toVCv n.state.velocity_control = (toVCv st.velocity_control).restart (toSpecV (gspec pol)) ∧
+    toVCv n.state.fee_velocity_control = (toVCv st.fee_velocity_control).restart (toSpecV (fspec pol)) ∧
+    n.persister = sv.persister ∧ n.clock = sv.clock ∧ n.validator_factory = sv.validator_factory ∧ n.channels = [] := by
+  refine ⟨rfl, ?_, ?_, rfl, rfl, rfl, rfl⟩
+  · exact C12_fn_nv_update_spec _ _
+  · exact C12_fn_nv_update_spec _ _
+
+/-- **C12_fn_update_velocity_controls**: a policy change while running does to the two controls what a restart does
+    (`update_spec` each under its own spec of the policy) and touches nothing else of the node. -/
+theorem C12_fn_update_velocity_controls (pol : Policy) (gspec fspec : Policy → FnNodeVelocity.VelocityControlSpec)
+    (n : Node PaymentHash ScriptBuf Xpub PublicKey Secp256k1 Network MyKeysManager ChannelId ChannelSlot ValidatorFactory
+      Persist Clock ChainTracker) :
+    Node.update_velocity_controls pol gspec fspec n
+      = { n with state := { n.state with velocity_control := n.state.velocity_control.update_spec (gspec pol),
+                                          fee_velocity_control := n.state.fee_velocity_control.update_spec (fspec pol) } } ∧
+    toVCv (Node.update_velocity_controls pol gspec fspec n).state.velocity_control
+      = (toVCv n.state.velocity_control).updateSpec (toSpecV (gspec pol)) ∧
+    toVCv (Node.update_velocity_controls pol gspec fspec n).state.fee_velocity_control
+      = (toVCv n.state.fee_velocity_control).updateSpec (toSpecV (fspec pol)) :=
+  ⟨rfl, C12_fn_nv_update_spec _ _, C12_fn_nv_update_spec _ _⟩
+
+/-- **C12_fn_make_velocity_control** / `make_fee_velocity_control` (a fresh node's controls): `VC.ofSpec` of the policy's
+    `global_velocity_control()` resp. `fee_velocity_control()`; never a panic -/
+theorem C12_fn_make_velocity_control (gspec : Policy → FnNodeVelocity.VelocityControlSpec) (pol : Policy) :
+    (Node.make_velocity_control gspec pol).map toVCv = .ok (VC.ofSpec (toSpecV (gspec pol))) := by
+  have := C12_fn_nv_new (gspec pol)
+  unfold Node.make_velocity_control
+  cases h : FnNodeVelocity.VelocityControl.new (gspec pol) <;> simp_all [Except.map, bind, Except.bind, pure, Except.pure]
+
+theorem C12_fn_make_fee_velocity_control (fspec : Policy → FnNodeVelocity.VelocityControlSpec) (pol : Policy) :
+    (Node.make_fee_velocity_control fspec pol).map toVCv = .ok (VC.ofSpec (toSpecV (fspec pol))) := by
+  have := C12_fn_nv_new (fspec pol)
+  unfold Node.make_fee_velocity_control
+  cases h : FnNodeVelocity.VelocityControl.new (fspec pol) <;> simp_all [Except.map, bind, Except.bind, pure, Except.pure]
+
+/-- non-vacuity: a node restored with 900 msat counted under an hourly limit of 1000, restarted under the same policy, keeps
+    the 900 (payment control) while its fee control — persisted hourly, policy now daily — starts afresh; positions not swapped -/
+example : ((Node.new_full (PaymentHash := Nat) (ScriptBuf := Nat) (Xpub := Nat) (PublicKey := Nat) (Secp256k1 := Unit)
+      (Network := Unit) (MyKeysManager := Unit) (ChannelId := Nat) (ChannelSlot := Nat) (ValidatorFactory := Unit)
+      (Persist := Unit) (Clock := Unit) (ChainTracker := Unit) (Policy := Unit)
+      () (fun _ => "abcd") (fun _ _ => ()) (fun _ => ⟨1000, .Hourly⟩) (fun _ => ⟨5000, .Daily⟩) "" ⟨()⟩ ⟨(), (), ()⟩
+      { invoices := [], issued_invoices := [], payments := [], excess_amount := 0, log_prefix := "", last_summary := "x",
+        velocity_control := ⟨600, 300, [900, 0, 0, 0, 0, 0, 0, 0, 0, 0, 0, 0], 1000⟩,
+        fee_velocity_control := ⟨600, 300, [70, 0, 0, 0, 0, 0, 0, 0, 0, 0, 0, 0], 5000⟩,
+        dbid_high_water_mark := 0, allowlist := [] } () 1 ()).state.velocity_control.buckets.head?,
+      (Node.new_full (PaymentHash := Nat) (ScriptBuf := Nat) (Xpub := Nat) (PublicKey := Nat) (Secp256k1 := Unit)
+      (Network := Unit) (MyKeysManager := Unit) (ChannelId := Nat) (ChannelSlot := Nat) (ValidatorFactory := Unit)
+      (Persist := Unit) (Clock := Unit) (ChainTracker := Unit) (Policy := Unit)
+      () (fun _ => "abcd") (fun _ _ => ()) (fun _ => ⟨1000, .Hourly⟩) (fun _ => ⟨5000, .Daily⟩) "" ⟨()⟩ ⟨(), (), ()⟩
+      { invoices := [], issued_invoices := [], payments := [], excess_amount := 0, log_prefix := "", last_summary := "x",
+        velocity_control := ⟨600, 300, [900, 0, 0, 0, 0, 0, 0, 0, 0, 0, 0, 0], 1000⟩,
+        fee_velocity_control := ⟨600, 300, [70, 0, 0, 0, 0, 0, 0, 0, 0, 0, 0, 0], 5000⟩,
+        dbid_high_water_mark := 0, allowlist := [] } () 1 ()).state.fee_velocity_control.buckets.length)
+    = (some 900, 24) := by decide
+end NodeVelocity
+
+/-! ## Round 10 (b4): `MemoApprover` (approver.rs) — the approver that remembers manual approvals (until now "not modelled")
+
+Area `ApproverMemo` (`fn_targets/ApproverMemo.b4.json`): `new`, `approve`, `approve_invoice`, `approve_keysend`
+(`approve_onchain` is tied by C08: `C08_fn_memo_approve_onchain`).  Stated on the generated definitions: a request is approved by
+the memo iff a memorised approval of the same kind matches it EXACTLY (invoice hash; payment hash and amount), otherwise the
+delegate (for vlsd: the velocity approver of `C12_fn_approve_invoice` / `_keysend`) decides; every request spends the whole memo
+(`drain(..)`), so one manual approval approves at most one request and never changes an amount.  Approvals by the memo are the
+user's manual approvals: for `C12_approver` they are delegate answers `true`, outside the automatic window bound. -/
+section ApproverMemo
+open VlsModel.Gen
+open VlsModel.Gen.FnApproverMemo (MemoApprover Approval)
+variable {A Invoice PaymentHash Transaction : Type}
+
+theorem C12_fn_memo_loop {α ρ : Type} (hit : α → Bool) (r : ρ) (f : Unit → α → Rs.M (Rs.Flow Unit ρ))
+    (hf : ∀ a, f () a = pure (if hit a then .ret r else .next ())) :
+    ∀ l : List α, Rs.loopM l () f = pure (if l.any hit then .inr r else .inl ()) := by
+  intro l
+  induction l with
+  | nil => rfl
+  | cons a rest ih =>
+    by_cases h : hit a = true
+    · simp [Rs.loopM, hf, h, bind, Except.bind, pure, Except.pure]
+    · have h' : hit a = false := by simpa using h
+      simpa [Rs.loopM, hf, h', bind, Except.bind, pure, Except.pure] using ih
+
+theorem C12_fn_memo_new (d : A) : (MemoApprover.new d : MemoApprover A Invoice PaymentHash Transaction) = ⟨d, []⟩ := rfl
+
+theorem C12_fn_memo_approve (m : MemoApprover A Invoice PaymentHash Transaction) (l : List (Approval Invoice PaymentHash Transaction)) :
+    m.approve l = ⟨m.delegate, l⟩ := rfl
+
+def memoHitKeysend [DecidableEq PaymentHash] (ph : PaymentHash) (amt : Nat) : Approval Invoice PaymentHash Transaction → Bool
+  | .KeySend h n => h == ph && n == amt
+  | _ => false
+
+def memoHitInvoice (ih : Invoice → List Nat) (inv : Invoice) : Approval Invoice PaymentHash Transaction → Bool
+  | .Invoice i => ih i == ih inv
+  | _ => false
+
+theorem C12_fn_memo_approve_keysend [DecidableEq PaymentHash] (dlg : A → PaymentHash → Nat → Bool)
+    (m : MemoApprover A Invoice PaymentHash Transaction) (ph : PaymentHash) (amt : Nat) :
+    MemoApprover.approve_keysend dlg m ph amt
+      = .ok (⟨m.delegate, []⟩, m.approvals.any (memoHitKeysend ph amt) || dlg m.delegate ph amt) := by
+  unfold MemoApprover.approve_keysend
+  dsimp only
+  rw [C12_fn_memo_loop (memoHitKeysend ph amt) ((⟨m.delegate, []⟩ : MemoApprover A Invoice PaymentHash Transaction), true) _
+    (by intro a; cases a <;> simp only [memoHitKeysend] <;> first | rfl | (split <;> simp_all))]
+  by_cases hh : m.approvals.any (memoHitKeysend ph amt) = true
+  · simp [hh, pure, Except.pure, bind, Except.bind]
+  · have hh' : m.approvals.any (memoHitKeysend ph amt) = false := by simpa using hh
+    simp [hh', pure, Except.pure, bind, Except.bind]
+
+theorem C12_fn_memo_approve_invoice (ih : Invoice → List Nat) (dlg : A → Invoice → Bool)
+    (m : MemoApprover A Invoice PaymentHash Transaction) (inv : Invoice) :
+    MemoApprover.approve_invoice ih dlg m inv
+      = .ok (⟨m.delegate, []⟩, m.approvals.any (memoHitInvoice ih inv) || dlg m.delegate inv) := by
+  unfold MemoApprover.approve_invoice
+  dsimp only
+  rw [C12_fn_memo_loop (memoHitInvoice ih inv) ((⟨m.delegate, []⟩ : MemoApprover A Invoice PaymentHash Transaction), true) _
+    (by intro a; cases a <;> simp only [memoHitInvoice] <;> first | rfl | (split <;> simp_all))]
+  by_cases hh : m.approvals.any (memoHitInvoice ih inv) = true
+  · simp [hh, pure, Except.pure, bind, Except.bind]
+  · have hh' : m.approvals.any (memoHitInvoice ih inv) = false := by simpa using hh
+    simp [hh', pure, Except.pure, bind, Except.bind]
+
+/-- non-vacuity: a memorised keysend (hash 7, 500 msat) approves exactly that request under a declining delegate, not another
+    amount, and is spent by either request -/
+example : MemoApprover.approve_keysend (A := Unit) (Invoice := Unit) (PaymentHash := Nat) (Transaction := Unit)
+      (fun _ _ _ => false) ⟨(), [.Invoice (), .KeySend 7 500]⟩ 7 500 = .ok (⟨(), []⟩, true)
+    ∧ MemoApprover.approve_keysend (A := Unit) (Invoice := Unit) (PaymentHash := Nat) (Transaction := Unit)
+      (fun _ _ _ => false) ⟨(), [.Invoice (), .KeySend 7 500]⟩ 7 501 = .ok (⟨(), []⟩, false) := ⟨rfl, rfl⟩
+end ApproverMemo
+
+/-! ## Round 10 (b4): `NodeState::new` (node.rs; area `NodeStateNew`, `fn_targets/NodeStateNew.b4.json`)
+
+The constructor of a fresh node state: the two controls handed in (`make_velocity_control` / `make_fee_velocity_control`) go into
+their own positions, everything else is empty.  (`NodeState::restore` translates with `collect()` externals but the generated closure
+does not elaborate — left for the translator builder; its control positions stay with `C11_fn_kvv_get_nodes` + census.) -/
+section NodeStateNew
+open VlsModel.Gen
+open VlsModel.Gen.FnNodeStateNew (NodeState Allowable)
+variable {PaymentHash ScriptBuf Xpub PublicKey : Type}
+
+theorem C12_fn_node_state_new (emptyStr : String) (setOf : List (Allowable ScriptBuf Xpub PublicKey) → List (Allowable ScriptBuf Xpub PublicKey))
+    (vc fvc : FnNodeStateNew.VelocityControl) (al : List (Allowable ScriptBuf Xpub PublicKey)) :
+    let st : NodeState PaymentHash ScriptBuf Xpub PublicKey := NodeState.new emptyStr setOf vc fvc al
+    st.velocity_control = vc ∧ st.fee_velocity_control = fvc ∧ st.invoices = [] ∧ st.issued_invoices = [] ∧ st.payments = [] ∧
+    st.excess_amount = 0 ∧ st.dbid_high_water_mark = 0 ∧ st.allowlist = setOf al :=
+  ⟨rfl, rfl, rfl, rfl, rfl, rfl, rfl, rfl⟩
+
+end NodeStateNew
 
 end VlsModel.Props.C12Fn
